@@ -13,6 +13,10 @@ translator: translate/specs/linref.py -> Generated/LinRef.lean -> Props/C19Gen.l
           merge/node/polygonize/sharedpaths
                        the case carries input + output of GEOS; the driver runs the proved-sound checkers exactly (doubles scaled
                        to integers) — a "violated:<clause>" answer is a concrete input on which the property's contract fails
+          holeassign   the REAL polygonize::EdgeRing::findEdgeRingContaining, asked on the rings PolygonizeGraph builds for generated
+                       arrangements, every hole ring built from each of its possible start edges; the answer (shell index / none)
+                       must equal the model Model/Lines/HoleAssign.lean (theorems: Props/C19Hole.lean).  A disagreement is turned
+                       into a property-level input by polygonizing re-ordered / re-directed copies of the same lines
           oracle       property-level oracles for linear referencing (round trip nearest, interpolate at arc length, substring
                        length), used as the search when `linref` stops agreeing
 """
@@ -21,7 +25,7 @@ import verif
 from verif import log
 
 LEVEL = "proof"
-PROPS = ["GeosModel.Props.C19"]
+PROPS = ["GeosModel.Props.C19", "GeosModel.Props.C19Hole"]
 DRV = "drv_c19"
 
 # stream -> (quick n, thorough n)
@@ -32,6 +36,7 @@ STREAMS = [
     ("node", 4000, 100000),
     ("node_fp", 1200, 30000),
     ("polygonize", 4000, 100000),
+    ("holeassign", 2400, 60000),
     ("sharedpaths", 4000, 100000),
     ("oracle_multi", 1500, 20000),
 ]
@@ -58,6 +63,9 @@ def input_part(stream, case):
     if stream in ("merge", "node", "node_fp"):
         ls, p = parse_set(t, 2)
         return t[:2], [ls], []
+    if stream == "holeassign":
+        ls, p = parse_set(t, 1)
+        return t[:1], [ls], []
     if stream == "polygonize":
         ls, p = parse_set(t, 3)
         return t[:3], [ls], []
@@ -283,6 +291,7 @@ def run(ctx):
                       signature={"stream": "reuse", "clause": " ".join(exp.split()[:2])})
     seen = []
     linref_bad = []
+    ha_bad = []
 
     def report_contract(stream, case, exp, got):
         nonlocal found_input
@@ -359,8 +368,48 @@ def run(ctx):
         for idx, case, exp, got in r["disagreements"]:
             if stream == "linref":
                 linref_bad.append((case, exp, got))
+            elif stream == "holeassign":
+                ha_bad.append((case, exp, got))
             else:
                 report_contract(stream, case, exp, got)
+
+    if ha_bad:
+        # the real findEdgeRingContaining and its model differ for some hole ring built from some start edge.  Which start edge
+        # Polygonizer itself uses depends on the order and direction of the input lines: polygonize re-ordered / re-directed
+        # copies of the same arrangement and let the contract checker judge the result.
+        import random
+        rnd = random.Random(ctx.seed)
+        hit = False
+        for case, exp, got in ha_bad[:6]:
+            pre, sets, suf = input_part("holeassign", case)
+            lines = []
+            for k in range(96):
+                ls = [list(l) for l in sets[0]]
+                rnd.shuffle(ls)
+                for l in ls:
+                    if rnd.random() < 0.5:
+                        pts = [l[i:i + 2] for i in range(0, len(l), 2)]
+                        pts.reverse()
+                        l[:] = [x for pt in pts for x in pt]
+                lines.append("Y f 0 " + show_set(ls))
+            pth = os.path.join(ctx.work, "ha-perm.txt")
+            with open(pth, "w") as f:
+                f.write("\n".join(lines) + "\n")
+            rc, outp = verif.sh([exe, "replay", "polygonize", pth], timeout=300)
+            pairs = [l.split("\t", 1) for l in outp.split("\n") if "\t" in l]
+            rc2, gots = verif.run_driver_lines("polygonize", [c for c, _ in pairs], driver_exe=DRV)
+            for (c, e), g in zip(pairs, gots):
+                if e != g:
+                    hit = True
+                    report_contract("polygonize", c, e, g)
+                    break
+            if hit:
+                break
+        if not hit:
+            case, exp, got = ha_bad[0]
+            ctx.violation("holeassign: polygonize::EdgeRing::findEdgeRingContaining no longer answers like its model (%d arrangements; impl %s, "
+                          "model %s); 96 re-orderings of the lines of each of the first arrangements polygonize correctly" % (len(ha_bad), exp[:80], got[:80]),
+                          {"kind": "tie-broken", "correspondence": "holeassign", "case": case, "impl": exp, "model": got}, nofail=True)
 
     if linref_bad:
         # model (Float instance) and implementation differ: does the *property* fail?  (i) the disagreeing inputs themselves,
